@@ -4,7 +4,7 @@
    its components builder: props/c15.py).  Basis generation (eigh, k-means, LDA) is an oracle whose
    documented post-condition (n_basis unit-norm rows) is checked per run. *)
 From Coq Require Import List Reals.
-From ML Require Import Ops Vec VecR MatR LinAlg SCML C15Proof.
+From ML Require Import Ops Vec VecR MatR LinAlg SCML C15Proof C15Best.
 Import ListNotations.
 Open Scope R_scope.
 
@@ -28,5 +28,26 @@ Proof.
   exact (conj scml_run_nonneg (conj init_ok (conj wgram_psd (conj scml_lowrank_factor scml_lowrank_rows)))).
 Qed.
 Print Assumptions C15_partial.
-(* Not mechanised: that the returned weights are those of the FIRST checkpoint attaining the minimum
-   objective (covered by the re-run correspondence). *)
+
+(* which iterate is returned: the objective is evaluated at the iterations k = output_iter, 2*output_iter, ...
+   <= max_iter (max_iter = number of mini-batches), and the record kept is the FIRST of these iterates that
+   attains the smallest objective; with no checkpoint in range nothing is recorded *)
+Definition C15_checkpoint_statement : Prop :=
+  forall (p : paramsR) (D : Rm) (nb : nat) (batches : list (list nat)),
+    let wk := fun k => w (runR p D nb 0 (firstn (k - 0) batches) (@init ROps nb)) in     (* weights after k iterations *)
+    let ks := filter (fun k => Nat.eqb (Nat.modulo k (output_iter p)) 0) (seq 1 (length batches)) in
+    let candidates := map (fun k => (objectiveR p D (wk k), wk k)) ks in
+    match best (runR p D nb 0 batches (@init ROps nb)) with
+    | None => ks = []
+    | Some r => exists pre post, candidates = pre ++ r :: post /\
+                  Forall (fun c => fst r < fst c) pre /\ Forall (fun c => fst r <= fst c) post
+    end.
+
+Theorem C15_checkpoint : C15_checkpoint_statement.
+Proof. exact scml_best_checkpoint. Qed.
+Print Assumptions C15_checkpoint.
+
+(* non-vacuity: with output_iter = 2 and three batches there is exactly one checkpoint, k = 2 *)
+Example C15_checkpoint_nonvacuous :
+  filter (fun k => Nat.eqb (Nat.modulo k 2) 0) (seq 1 3) = [2%nat].
+Proof. reflexivity. Qed.
